@@ -13,7 +13,7 @@ OBLIGATIONS += versionlist_obls("b")
 
 META = {
     "level": "model_checking",
-    "level_text": "Bounded model checking (CBMC) of the real garbage collector ldb_remove_obsolete_files() and of the real memtable-flush path ldb_background_call() -> ldb_background_compaction() -> ldb_compact_memtable() -> ldb_write_level0_table() -> ldb_remove_obsolete_files() (db_impl.c #included, so the static functions themselves are executed) from arbitrary well-formed states. The set of unlinked directory entries is compared with an independent reference of the keep rules (foreign names, CURRENT, LOCK, LOG kept; log removed iff number < log_number and != prev_log_number; MANIFEST removed iff number < manifest_file_number; table/temp removed iff not in live U pending_outputs), removed tables are evicted, nothing is touched after a latched error, unlinking happens only with the mutex released. In the flush the new table's number is fresh, is in pending_outputs before and during ldb_build_table(), survives a collection that runs during the build, is never unlinked, no collection happens between the erase from pending_outputs and the install, and obsolete files are collected only after the edit was applied.",
+    "level_text": "Bounded model checking (CBMC) of the real garbage collector ldb_remove_obsolete_files() and of the real memtable-flush path ldb_background_call() -> ldb_background_compaction() -> ldb_compact_memtable() -> ldb_write_level0_table() -> ldb_remove_obsolete_files() (db_impl.c #included, so the static functions themselves are executed) from arbitrary well-formed states. The set of unlinked directory entries is compared with an independent reference of the keep rules (foreign names, CURRENT, LOCK, LOG kept; log removed iff number < log_number and != prev_log_number; MANIFEST removed iff number < manifest_file_number; table/temp removed iff not in live U pending_outputs), removed tables are evicted, nothing is touched after a latched error, unlinking happens only with the mutex released. In the flush the new table's number is fresh, is in pending_outputs before and during ldb_build_table(), survives a collection that runs during the build, is never unlinked, no collection happens between the erase from pending_outputs and the install, and obsolete files are collected only after the edit was applied. Also: the live set computed by the real ldb_versions_add_files covers every file of every version in the list on every level 0..6, and version ref/unref/append keep the list exact.",
     "level_note": "Trusted: CBMC's semantics of the goto-cc translation; the name model kit/vp_names (ldb_parse_filename / ldb_join over encoded (type, number, spelling) buffers -- the real text parser/formatter of filename.c is decided by C18/C17, here its contract is assumed); the array model of the rb_set64 API for pending_outputs / live (the real util/rbt.c does not get through symbolic execution with symbolic keys); the stubs for ldb_versions_add_files (symbolic live set: that every version in the list is visited is C13.b, not decided here), ldb_build_table, ldb_versions_apply (installs log_number/prev_log_number as the real one does), version_edit.c setters (field stores), memtable, thread pool; the environment model of other threads (act only while the mutex is released: latch an error, begin shutdown, a writer switches memtables once imm is NULL; a single background thread). The compaction path (ldb_open_compaction_output_file / ldb_cleanup_compaction / ldb_install_compaction_results), ldb_open and whole-directory histories are not executed here; leak-freedom at quiescence (C13.e) is decided in the form 'a second collection in the same state removes nothing more' plus 'removed set == complement of the needed set'. No real thread interleaving is executed.",
     "bounds": ["ldb_remove_obsolete_files: directory of <=5 entries (quick; <=6 thorough), each an owned name with symbolic type, 64-bit number and spelling variant or a foreign name; <=3 (4) live table numbers; <=2 (3) pending outputs; symbolic log_number / prev_log_number / manifest_file_number (full 64 bit); symbolic bg_error; listing may fail; version counters havocked while the mutex is released",
                "flush / background call: one call; directory of 3 (5) arbitrary entries + the table being built; <=2 (3) live tables; <=1 (2) other pending outputs; symbolic next_file_number < 2^60, logfile_number, log_number <= logfile_number; symbolic results of ldb_build_table (OK/IOERR/CORRUPTION, file_size 0..2^40) and ldb_versions_apply (OK/IOERR/ENOSPC); pick level 0..2; bg_error and shutdown symbolic before the call and at every mutex release; optionally one concurrent collection during the build"],
